@@ -594,7 +594,7 @@ def histLine (s : HState) (toks : Array String) : HState × List Msg :=
     match s.wr with
     | none => failL "WO" "WO without W"
     | some wp =>
-      let op := if wp.kind == "csv" then "tocsv" else "tojson"
+      let op := if wp.kind == "csv" then "tocsv" else if wp.kind == "str" then "string" else "tojson"
       match toks[1]? with
       | some "P" => ({ s with wr := none }, [{ cls := "SPEC-MISMATCH", op := op, kind := "panic", detail := "writer panicked" }])
       | some "E" =>
@@ -611,7 +611,8 @@ def histLine (s : HState) (toks : Array String) : HState × List Msg :=
           | none => ({ s with wr := none }, [{ cls := "SPEC-MISMATCH", op := op, kind := "errdiff", detail := "output written for a frame that carries an error" }])
           | some f =>
             let why : Option String :=
-              if wp.kind == "csv" then csvDenotes f wp.hdr wp.cols out
+              if wp.kind == "str" then stringDenotes f out
+              else if wp.kind == "csv" then csvDenotes f wp.hdr wp.cols out
               else if hasInf f then none     -- outside the property's quantifier (floats finite or NaN)
               else jsonDenotes f out
             let s' := { s with wr := some { wp with wrote := true } }
@@ -712,6 +713,11 @@ def histLine (s : HState) (toks : Array String) : HState × List Msg :=
           if (r == "1") == e then (s, [{ cls := "OK", op := "equals", kind := "", detail := "" }])
           else (s, [{ cls := "SPEC-MISMATCH", op := "equals", kind := "equals", detail := s!"Equals({a},{b}) = {r}, spec {e}: {showFrame fa} vs {showFrame fb}" }])
       | _, _ => (s, [])
+  | some "QC" =>
+    -- congruence: the same operation on a frame and on its rebuilt copy must give Equal results
+    let op := toks[1]?.getD "?"
+    if toks[4]? == some "1" && toks[5]? == some "1" then (s, [{ cls := "OK", op := "congruence", kind := "", detail := "" }])
+    else (s, [{ cls := "SPEC-MISMATCH", op := "congruence", kind := "equals", detail := s!"operation {op} on frame {toks[2]?.getD "?"} and on its rebuilt copy {toks[3]?.getD "?"} gave results that are not Equal ({toks[4]?.getD "?"}, {toks[5]?.getD "?"})" }])
   | some "G" =>
     match runP (do
         let src ← nat
